@@ -45,6 +45,7 @@ namespace bxdecay0 {
 
   void Ra226(i_random & prng_, event & event_, const double tcnuc_, double & tdnuc_)
   {
+    BXDECAY0_VERIF_SCOPE("scheme:Ra226", tcnuc_);
     bool debug = false;
     double t;
     double tdlev;
